@@ -156,6 +156,10 @@ func checkC04(c C04Case) Outcome {
 	out.Detail["exit"] = r.Exit
 	if r.Exit != 0 {
 		out.Detail["stderr"] = tailLines(r.Stderr, 10)
+		if openFinding("D23") && strings.Contains(r.Stderr, "invalid character class range") {
+			out.ExcludedBy = "D23"
+			return out
+		}
 		out.Violation = fmt.Sprintf("program with cmdline block does not compile (exit %d)", r.Exit)
 		return out
 	}
